@@ -435,7 +435,104 @@ func suiteV11staged(c *vctx) {
 	}
 }
 
+// invariant stress: while one client keeps flipping the admin flag of a user (and another keeps
+// adding / removing an unrelated user), readers log in as that user and list the store. In every
+// sequential order the user exists with the same password throughout: every correct-password
+// login succeeds and every listing shows the user as supported (with either flag). Histories
+// of this length are beyond the linearizability search; these consequences are checked instead.
+func suiteV11inv(c *vctx) {
+	r := c.r
+	n := 16
+	dur := 150 * time.Millisecond
+	if c.thorough() {
+		n, dur = 96, 600*time.Millisecond
+	}
+	n = max(n/c.nshards, 1)
+	for i := 0; i < n; i++ {
+		mode := []string{"", "local"}[r.Intn(2)]
+		a, err := newVAgent(c, fmt.Sprintf("iv%d", i), 1, mode, "", "", "")
+		if err != nil {
+			continue
+		}
+		a.iface.Init("root", "Root-Passw0rd")
+		for k := 0; k < 20; k++ { // a directory with some entries: readdir and the per-file reads are apart
+			a.iface.Add(fmt.Sprintf("fill%02d", k), "Fill-Passw0rd", false)
+		}
+		a.iface.Add("victim", "Victim-Passw0rd", false)
+		stop := make(chan bool)
+		var wg sync.WaitGroup
+		var flips, logins, lists, badLogin, badList int64
+		var firstBad atomic.Value
+		bad := func(cnt *int64, what string) {
+			if atomic.AddInt64(cnt, 1) == 1 {
+				firstBad.CompareAndSwap(nil, what)
+			}
+		}
+		spawn := func(f func(k int)) {
+			wg.Add(1)
+			go func() {
+				defer wg.Done()
+				for k := 0; ; k++ {
+					select {
+					case <-stop:
+						return
+					default:
+					}
+					f(k)
+				}
+			}()
+		}
+		spawn(func(k int) { a.iface.SetAdmin("victim", k%2 == 0); atomic.AddInt64(&flips, 1) })
+		spawn(func(k int) {
+			if k%2 == 0 {
+				a.iface.Add("comeandgo", "Come-Passw0rd", false)
+			} else {
+				a.iface.Remove("comeandgo")
+			}
+		})
+		for w := 0; w < 3; w++ {
+			spawn(func(k int) {
+				ok, _, _, err := a.iface.Authenticate("victim", "Victim-Passw0rd")
+				atomic.AddInt64(&logins, 1)
+				if !ok || err != nil {
+					bad(&badLogin, fmt.Sprintf("login ok=%v err=%v", ok, err))
+				}
+			})
+		}
+		spawn(func(k int) {
+			l, err := a.iface.List()
+			atomic.AddInt64(&lists, 1)
+			if _, has := l["victim"]; err != nil || !has {
+				bad(&badList, fmt.Sprintf("list has=%v err=%v", has, err))
+			}
+		})
+		spawn(func(k int) {
+			l, err := a.iface.ListFull()
+			atomic.AddInt64(&lists, 1)
+			if e, has := l["victim"]; err != nil || !has || !e.IsValid || !e.IsSupported {
+				bad(&badList, fmt.Sprintf("list-full has=%v err=%v entry=%+v", has, err, e))
+			}
+		})
+		time.Sleep(dur)
+		close(stop)
+		done := make(chan bool)
+		go func() { wg.Wait(); close(done) }()
+		select {
+		case <-done:
+		case <-time.After(5 * time.Second):
+			c.emit("law.C10.every_request_is_answered invariant-stress-c11", "f")
+			continue
+		}
+		why, _ := firstBad.Load().(string)
+		c.emit(fmt.Sprintf("law.C11.reads_see_a_sequential_state mode=%s flips=%d logins=%d lists=%d bad-logins=%d bad-lists=%d %s",
+			vxs(mode), flips, logins, lists, badLogin, badList, vxs(why)), vtf(badLogin == 0 && badList == 0))
+		c.emit(fmt.Sprintf("law.C11.idle_store_passes_check mode=%s invariant-stress", vxs(mode)), vtf(a.ref.Check() == nil))
+		os.RemoveAll(a.dirPath)
+	}
+}
+
 func init() {
+	vsuites["v11i"] = suiteV11inv
 	vsuites["v11"] = suiteV11
 	vsuites["v11g"] = suiteV11gated
 	vsuites["v11s"] = suiteV11staged
